@@ -12,6 +12,7 @@ let suite_panic (line : string) : string =
   let fl = nz t in let dl = nz t in let cs = nz t in let st = nz t in let lr = nz t in
   let p = ref { M.p_flags = fl; p_daily = dl; p_consec = cs; p_start = st; p_last_reset = lr } in
   let n = ni t in
+  let c = ref { M.c_flags = zi 0; c_start = zi 0; c_last_update = zi 0 } in
   let out = ref [] in
   for _ = 1 to n do
     let op = ni t in
@@ -23,9 +24,10 @@ let suite_panic (line : string) : string =
       | 2 -> (match M.p_unpause_if_expired !p now with M.Ok p' -> p := p'; "OK" | M.Err e -> err_s e)
       | 3 -> res_s bs (M.p_is_expired !p now)
       | 4 -> res_s bs (M.p_can_pause !p now)
-      | 5 -> res_s bs (M.c_is_expired (M.ix_propagate !p now) now)
+      | 5 -> c := M.ix_propagate !p now; res_s bs (M.c_is_expired !c now)
+      | 6 -> res_s bs (M.c_is_expired !c now)
       | _ -> failwith "bad op" in
-    out := (r ^ " " ^ pst !p) :: !out
+    out := (r ^ " " ^ pst !p ^ " " ^ zs !c.M.c_flags ^ " " ^ zs !c.M.c_start ^ " " ^ zs !c.M.c_last_update) :: !out
   done;
   Stdlib.String.concat " | " (Stdlib.List.rev !out)
 
